@@ -16,6 +16,11 @@
 //! `filter::after_snapshot` / `filter::before_build_block` while the main thread delivers a
 //! heavier competing branch; later the first branch is extended and becomes the main chain
 //! again, the builder is run to completion and the same oracle is applied.
+//!
+//! Light-client part (module `light`, own evidence shard `C19.part-light.json`): on the same node
+//! N, after reorganisations (stored blocks of abandoned branches), the real light-client protocol
+//! server is driven with GetLastState / GetLastStateProof / GetBlocksProof / GetTransactionsProof
+//! messages and every reply is judged against the reference model (see light.rs).
 
 use ckb_block_filter::filter::BlockFilter;
 use ckb_hash::blake2b_256;
